@@ -434,8 +434,16 @@ where
                 // in the linked docs, the code is given as a double sum. However,
                 // this can be simplified into a quadratic form b^T A b, where b are the
                 // rows of the Jacobian and A is the covariance matrix.
-                // j^T Cov j = sigma^2 * || L^-1 j ||^2
-                *sig = (&L_inv * &j).norm() * sigma;
+                // j^T Cov j = sigma^2 * || L^-1 j ||^2. The vector is scaled by its
+                // largest element before taking the norm, because the squares of
+                // small elements (below ~1e-19 for f32) would underflow otherwise.
+                let v = &L_inv * &j;
+                let scale = v.amax();
+                *sig = if scale > Model::ScalarType::zero() {
+                    v.unscale(scale).norm() * scale * sigma
+                } else {
+                    Model::ScalarType::zero()
+                };
             });
 
         Ok(Self {
